@@ -64,7 +64,7 @@ def g_int(rng, small=False):
         return Node('BytesInteger(%d, signed=%s, swapped=%s)' % (n, s, sw), lambda g: edge_int(g, lo, hi), size=n, tags=['int'])
     if r < 0.9:
         return Node('VarInt', lambda g: edge_int(g, 0, rng.choice([127, 128, 2 ** 14, 2 ** 21, 2 ** 70])), tags=['int', 'var'])
-    return Node('ZigZag', lambda g: edge_int(g, -2 ** 40, 2 ** 40), tags=['int', 'var'])
+    return Node('ZigZag', lambda g: g.choice([edge_int(g, -2 ** 40, 2 ** 40), edge_int(g, -2 ** 70, 2 ** 70), 2 ** 63 - 1, -(2 ** 63), 10 ** 20 + 7, -(2 ** 53) - 1]), tags=['int', 'var'])
 
 
 def g_uint_small(rng):
